@@ -208,6 +208,17 @@ class C02(Plugin):
         for h in heads:
             for tail in ("", ">", " >", " x>", "x>", " [ ]>", " 'q'>", "\x00>", " \x00", " x", ">y", " PUBLIC>", " SYSTEM 'z'>"):
                 out.append({"k": 1, "state": "dataState", "cur": None, "tmp": "", "cdata": 0, "text": h + tail})
+        # the markup declaration open state: "[CDATA[" is matched case-sensitively (and only when CDATA sections are
+        # allowed), "DOCTYPE" ASCII case-insensitively; every prefix, other casings, near misses
+        for kw in ("[CDATA[", "[cdata[", "[CData[", "[CDATa[", "[cDATA[", "[CDATA", "[CDAT[", "[CDATA [", "DOCTYPE", "doctype", "DocType",
+                   "DOCTYP", "DOCTYPEx", "--", "-", "[", "[C", "D", "doc"):
+            for tail in ("x]]>y", "x<y>]]>", " html>z", "", ">", "]]>", "x"):
+                for cd in (0, 1):
+                    out.append({"k": 1, "state": "dataState", "cur": None, "tmp": "", "cdata": cd, "text": "a<!" + kw + tail})
+        # an incomplete PUBLIC / SYSTEM keyword after the doctype name, ended by ">" or something else
+        for kwd in ("p", "P", "PU", "PUB", "publi", "PUBLIC", "s", "S", "sy", "SYST", "syste", "SYSTEM", "x", "PUBLIX", "pS", "sP"):
+            for tail in (">A<b>B", " >A", "x>A", "", ">", "'q'>A", " 'q' 'r'>A<!--c-->"):
+                out.append({"k": 1, "state": "dataState", "cur": None, "tmp": "", "cdata": 0, "text": "<!DOCTYPE html " + kwd + tail})
         # numeric references at the boundaries of every range the standard distinguishes, decimal and hexadecimal
         for v in [0, 1, 9, 10, 13, 31, 32, 127, 128, 129, 159, 160, 0xD7FF, 0xD800, 0xDFFF, 0xE000, 0xFDD0, 0xFFFE, 0xFFFF,
                   0x10000, 99999, 100000, 999999, 1000000, 1114109, 1114111, 1114112, 9999999, 10000000, 0xFFFFF,
